@@ -11,7 +11,9 @@ NOT_APPLICABLE = {
 PHRASES = [
     ("R2.", "exhaustive boolean-formula algebra over variable classes (pandas query strings located by data flow)"),
     ("R3.", "period-offset abstract domain on per-period lists"),
-    ("KER.", "normal-form agreement of kernels/wrappers with reviewed reference forms (sibling cross-check)"),
+    ("KER", "normal-form agreement of kernels/wrappers/plumbing with reviewed reference forms (sibling cross-check; two inlining levels; "
+            "three-valued verdict: equal = proved, atomic or local deviation measured by shared-subterm edit cost = refuted, "
+            "rewritten = undecided)"),
     ("R13.", "polynomial normal form of the Bellman expression and masked reductions"),
     ("R14.", "solver/simulator twin comparison"),
     ("R15.", "def-use obligations on the simulator loop's value graph"),
@@ -23,7 +25,7 @@ PHRASES = [
     ("R1.", "import/attribute resolution against the installed sources"),
     ("R10.", "call-arity and signature-discipline checks"),
     ("R11.", "keyword-family algebra over usage classes"),
-    ("R12.", "guard constant-folding on finite witness sets + partial-operation domain check"),
+    ("R12.", "guard terms interpreted on finite witness sets (continuous and discrete grids, filter parameters) + partial-operation domain check"),
 ]
 
 
